@@ -499,7 +499,7 @@ func (l *memoryBlockList) freeWithLock(alloc *Allocation, heapIndex int) (blockT
 	if err != nil {
 		panic(fmt.Sprintf("unexpected error when freeing allocation with handle %+v in metadata: %+v", alloc.blockData.handle, err))
 	}
-	block.memory.RecordSuballocSubfree()
+	block.memory.RecordSuballocSubfree(l.parentAllocator.driver)
 	memutils.DebugValidate(block)
 
 	l.logger.LogAttrs(context.Background(), slog.LevelDebug, "    Freed from block", slog.Int("MemoryTypeIndex", l.memoryTypeIndex))
@@ -603,7 +603,7 @@ func (l *memoryBlockList) commitAllocationRequest(allocRequest metadata.Allocati
 	mapped := allocFlags&AllocationCreateMapped != 0
 	isMappingAllowed := allocFlags&(AllocationCreateHostAccessSequentialWrite|AllocationCreateHostAccessRandom) != 0
 
-	block.memory.RecordSuballocSubfree()
+	block.memory.RecordSuballocSubfree(l.parentAllocator.driver)
 
 	// Allocate from block
 	if mapped {
